@@ -595,7 +595,6 @@ func c11KnownWitnesses(root string) {
 			if err != nil {
 				continue
 			}
-			j.outDir = filepath.Join(gm.dir, "gen", "k0")
 		}
 		j.gen = c11GenArg(t, nil, c11ModName+"/gen/k0/")
 		j.run = c11Compile(idl, "prog.frugal", j.gen, j.outDir)
